@@ -123,22 +123,46 @@ theorem chosen_dtype_holds_all {mn mx : Rat} {r : Rung} {vals : List Rat}
 example : [1/2, 255 + 1/2, 0].map (castTo (chooseIntDtype none 0 (255 + 1/2))) = [some 0, some 256, some 0] := by
   decide +kernel
 
-/-- FINDING (the statement "wide enough" is false for the source as it is):
-when the bounds are float32 scalars, `choose_int_dtype` compares them with the
-limits converted to float32; 4294967295 becomes 4294967296.0, so uint32 is
-chosen for a maximum of 2^32, which it cannot hold.  Same for float64 at 2^64
-(uint64) and 2^63 (int64). -/
+/-- "wide enough for all values" holds as well when the bounds are floats but
+the source compares them as Python ints (comparison mode `exact`, any stored
+float type): the choice is the one made for exact bounds. -/
+theorem dtype_fits_mode_exact (fb : Option Nat) {mn mx v : Rat} {r : Rung}
+    (h : Generated.intLadder.find?
+      (rungAcceptsMode .exact fb (roundHalfEven mn) (roundHalfEven mx)) = some r)
+    (h1 : mn ≤ v) (h2 : v ≤ mx) :
+    chooseIntDtypeMode .exact fb mn mx = r ∧ castTo r v = some (roundHalfEven v) := by
+  rw [rungAcceptsMode_exact] at h
+  exact ⟨by rw [chooseIntDtypeMode_exact, chooseIntDtype_of_find h], find_fits h h1 h2⟩
+
+example : chooseIntDtypeMode .exact (some 24) 0 4294967296 = ("uint64", 0, 18446744073709551615) ∧
+    castTo ("uint64", 0, 18446744073709551615) 4294967296 = some 4294967296 := by
+  decide +kernel
+
+/-- FINDING (the statement "wide enough" is false for the comparison in the
+floating-point type of the bounds, mode `native`, which is what the source does
+with NumPy ≥ 2): for float32 bounds the limit 4294967295 is seen as
+4294967296.0, so uint32 is chosen for a maximum of 2^32, which it cannot hold.
+Same for float64 bounds (modes `native` and `float64`) at 2^64 (uint64) and
+2^63 (int64). -/
 theorem dtype_float_compare_too_narrow :
-    (chooseIntDtype (some 24) 0 4294967296 = ("uint32", 0, 4294967295) ∧
+    (chooseIntDtypeMode .native (some 24) 0 4294967296 = ("uint32", 0, 4294967295) ∧
       castTo ("uint32", 0, 4294967295) 4294967296 = none) ∧
-    (chooseIntDtype (some 53) 0 18446744073709551616 = ("uint64", 0, 18446744073709551615) ∧
+    (chooseIntDtypeMode .native (some 53) 0 18446744073709551616 =
+        ("uint64", 0, 18446744073709551615) ∧
+      chooseIntDtypeMode .float64 (some 24) 0 18446744073709551616 =
+        ("uint64", 0, 18446744073709551615) ∧
       castTo ("uint64", 0, 18446744073709551615) 18446744073709551616 = none) ∧
-    (chooseIntDtype (some 53) (-5) 9223372036854775808 =
+    (chooseIntDtypeMode .native (some 53) (-5) 9223372036854775808 =
+        ("int64", -9223372036854775808, 9223372036854775807) ∧
+      chooseIntDtypeMode .float64 (some 53) (-5) 9223372036854775808 =
         ("int64", -9223372036854775808, 9223372036854775807) ∧
       castTo ("int64", -9223372036854775808, 9223372036854775807) 9223372036854775808 = none) := by
   decide +kernel
 
-example : Generated.intLadderExactCompare = false := rfl
+/-- the function the pipeline uses is the one of the comparison mode read from the source -/
+example (fb : Option Nat) (mn mx : Rat) :
+    chooseIntDtype fb mn mx = chooseIntDtypeMode sourceMode fb mn mx :=
+  chooseIntDtype_eq_mode fb mn mx
 
 /-! ### gene identifiers -/
 
@@ -204,5 +228,335 @@ theorem placeholders_distinct {lookup : List (Name × Name)} {placeholder : Nat 
   omega
 
 example : Function.Injective (fun k => stripSuffix (demoPlaceholder k)) := demoPlaceholder_injective
+
+/-! ### what `_validate_h5ad` writes -/
+
+/-- "the same genes in the same order" / identifiers: the `var` index of the
+result is exactly the output of the gene mapper (which `genes_pointwise`
+describes entry by entry), and it has no repeated name. -/
+theorem written_genes {placeholder : Nat → Name} {inp : Input} {plan : Plan}
+    (h : validate placeholder inp = .ok plan) :
+    (∃ o, mapGenes inp.lookup placeholder inp.start inp.genes = .ok o ∧ plan.genes = o.mapped) ∧
+    plan.genes.length = inp.genes.length ∧ plan.genes.Nodup := by
+  obtain ⟨_, hg, _, mv, k, mn, mx, hm, _, hd, _, hgen, _⟩ := validate_ok_inv h
+  obtain ⟨o, ho, hcase⟩ := mapGeneIdsInVar_ok hm
+  have hlen : o.mapped.length = inp.genes.length := by
+    rw [(mapGenes_ok ho).1, List.length_map, renameFrom_length]
+  rcases hcase with ⟨e, rfl, _⟩ | ⟨_, rfl, _⟩
+  · simp only [Option.getD_none] at hgen
+    rw [hgen]
+    exact ⟨⟨o, ho, e.symm⟩, rfl, (hasDup_false_iff _).1 hg⟩
+  · simp only [Option.getD_some] at hgen
+    rw [hgen]
+    exact ⟨⟨o, ho, rfl⟩, hlen, (hasDup_false_iff _).1 (hd _ rfl)⟩
+
+
+example : validate demoPlaceholder demoInput = .ok
+    { writeNew := true
+      genes := [['E','N','S','G','0','1'], ['E','N','S','G','0','7'], ['u','_','x','x'], ['u','_','x','x','x']]
+      values := [some 0, some 256, some 0, some 3, some 3, some 0, some 2, some 0]
+      dtype := some "uint16"
+      mapping := some [(['E','N','S','G','0','1','.','2'], ['E','N','S','G','0','1']),
+        (['A','b','c'], ['E','N','S','G','0','7']), (['x','y'], ['u','_','x','x']),
+        (['z'], ['u','_','x','x','x'])]
+      nMapped := 2, hasWarnings := true } := by decide +kernel
+
+/-- "the applied renaming and the number of mapped genes are recorded in the
+file": the recorded renaming is the list of pairs (old name, new name) of the
+genes whose name changed, in `var` order, and the recorded number of mapped
+genes is the number of genes minus the number of unknown names. -/
+theorem renaming_record {placeholder : Nat → Name} {inp : Input} {plan : Plan}
+    {m : List (Name × Name)}
+    (h : validate placeholder inp = .ok plan) (hm : plan.mapping = some m) :
+    m = (inp.genes.zip plan.genes).filter (fun p => p.1 != p.2) ∧
+    plan.nMapped = inp.genes.length -
+      inp.genes.countP (fun g => !isEnsembl g && (inp.lookup.lookup g).isNone) := by
+  obtain ⟨_, _, _, mv, k, mn, mx, hmv, _, _, _, hgen, _, _, hmap, hn⟩ := validate_ok_inv h
+  obtain ⟨o, ho, hcase⟩ := mapGeneIdsInVar_ok hmv
+  rcases hcase with ⟨_, rfl, _⟩ | ⟨_, rfl, rfl⟩
+  · rw [hmap] at hm; cases hm
+  · rw [hmap] at hm
+    simp only [Option.map_some, Option.some.injEq] at hm
+    simp only [Option.getD_some] at hgen
+    rw [hgen, hn, (mapGenes_ok ho).2.1]
+    exact ⟨hm.symm, rfl⟩
+
+
+example : (validate demoPlaceholder demoInput).toOption.map (fun p => (p.mapping, p.nMapped)) =
+    some (some [(['E','N','S','G','0','1','.','2'], ['E','N','S','G','0','1']),
+      (['A','b','c'], ['E','N','S','G','0','7']), (['x','y'], ['u','_','x','x']),
+      (['z'], ['u','_','x','x','x'])], 2) := by decide +kernel
+
+/-- The renaming is recorded exactly when some gene name changed. -/
+theorem renaming_recorded_iff {placeholder : Nat → Name} {inp : Input} {plan : Plan}
+    (h : validate placeholder inp = .ok plan) :
+    plan.mapping.isSome = true ↔ plan.genes ≠ inp.genes := by
+  obtain ⟨_, _, _, mv, k, mn, mx, hmv, _, _, _, hgen, _, _, hmap, _⟩ := validate_ok_inv h
+  obtain ⟨o, ho, hcase⟩ := mapGeneIdsInVar_ok hmv
+  rcases hcase with ⟨_, rfl, _⟩ | ⟨hne, rfl, _⟩
+  · simp [hmap, hgen]
+  · simp [hmap, hgen, hne]
+
+
+example : (validate demoPlaceholder { demoInput with genes := [['E','N','S','G','0','1'], ['E','N','S','G','0','2']] }).toOption.map
+    (fun p => (p.mapping, p.genes)) = some (none, [['E','N','S','G','0','1'], ['E','N','S','G','0','2']]) := by
+  decide +kernel
+
+/-- "an X matrix equal to the requested layer ... unchanged otherwise": when
+rounding is not requested, or the stored type is an integer type, or all values
+are integers already (to within `eps`), the values are written unchanged and no
+integer type is imposed. -/
+theorem unchanged_when {placeholder : Nat → Name} {inp : Input} {plan : Plan}
+    (h : validate placeholder inp = .ok plan)
+    (hc : inp.roundToInt = false ∨ inp.intDtype = true ∨
+      isIntegersChunked inp.eps inp.storage.readChunks = true) :
+    plan.values = inp.storage.values.map some ∧ plan.dtype = none := by
+  obtain ⟨_, _, _, mv, k, mn, mx, _, _, _, _, _, hv, hd, _⟩ := validate_ok_inv h
+  have hcn : castNeeded inp = false := by
+    unfold castNeeded
+    rcases hc with hc | hc | hc <;> simp [hc]
+  simp only [hcn, Bool.false_eq_true, if_false] at hv hd
+  exact ⟨hv, hd⟩
+
+
+example : (validate demoPlaceholder { demoInput with roundToInt := false }).toOption.map
+    (fun p => (p.values, p.dtype)) =
+    some ([some (1/2), some (255 + 1/2), some 0, some 3, some 3, some 0, some (7/4), some (-1/2)], none) := by
+  decide +kernel
+
+/-- same, because every value is an integer already -/
+example : (validate demoPlaceholder
+    { demoInput with storage := .sparse [3, 0, 70000, 2] (some 3) }).toOption.map (fun p => (p.values, p.dtype)) =
+    some ([some 3, some 0, some 70000, some 2], none) := by
+  decide +kernel
+
+/-- "every value moved by at most one half": the new X has one entry per entry
+of the requested layer, at the same position, and no written entry differs from
+the original by more than one half. -/
+theorem moved_at_most_half {placeholder : Nat → Name} {inp : Input} {plan : Plan}
+    (h : validate placeholder inp = .ok plan) :
+    plan.values.length = inp.storage.values.length ∧
+    ∀ (i : Nat) (v w : Rat), inp.storage.values[i]? = some v → plan.values[i]? = some (some w) →
+      -(1/2) ≤ w - v ∧ w - v ≤ 1/2 := by
+  obtain ⟨_, _, _, mv, k, mn, mx, _, _, _, _, _, hv, _⟩ := validate_ok_inv h
+  rw [hv]
+  constructor
+  · split <;> simp
+  · intro i v w hi hw
+    split at hw
+    · rw [List.getElem?_map, hi] at hw
+      simp only [Option.map_some, Option.some.injEq] at hw
+      cases hc : castTo (chooseIntDtype inp.floatBits mn mx) v with
+      | none => rw [hc] at hw; cases hw
+      | some z =>
+        rw [hc] at hw
+        simp only [Option.map_some, Option.some.injEq] at hw
+        subst hw
+        have : z = roundHalfEven v := by
+          unfold castTo at hc
+          simp only [] at hc
+          split at hc
+          · exact (Option.some.inj hc).symm
+          · cases hc
+        subst this
+        exact CTM.Validate.round_half v
+    · rw [List.getElem?_map, hi] at hw
+      simp only [Option.map_some, Option.some.injEq] at hw
+      subst hw
+      norm_num
+
+
+example : (validate demoPlaceholder demoInput).toOption.map (fun p => p.values) =
+    some [some 0, some 256, some 0, some 3, some 3, some 0, some 2, some 0] ∧
+    demoInput.storage.values = [1/2, 255 + 1/2, 0, 3, 3, 0, 7/4, -1/2] := by
+  decide +kernel
+
+/-- "to an integer held in an integer type": when an integer type `d` is
+imposed, it is the name of a rung of the ladder (or the default), every entry
+is either the rounded original value - when that lies in the rung's range - or
+marked as not representable, and rounding was requested. -/
+theorem cast_values {placeholder : Nat → Name} {inp : Input} {plan : Plan} {d : String}
+    (h : validate placeholder inp = .ok plan) (hd : plan.dtype = some d) :
+    inp.roundToInt = true ∧
+    ∃ rung : Rung, (rung ∈ Generated.intLadder ∨ rung = Generated.intLadderDefault) ∧ rung.1 = d ∧
+      plan.values = inp.storage.values.map (fun v =>
+        if rung.2.1 ≤ roundHalfEven v ∧ roundHalfEven v ≤ rung.2.2
+        then some (roundHalfEven v : Rat) else none) := by
+  obtain ⟨_, _, _, mv, k, mn, mx, _, _, _, _, _, hv, hdt, _⟩ := validate_ok_inv h
+  rw [hdt] at hd
+  split at hd
+  next hcn =>
+    have hr : inp.roundToInt = true := by
+      unfold castNeeded at hcn
+      simp only [Bool.and_eq_true] at hcn
+      exact hcn.1
+    refine ⟨hr, chooseIntDtype inp.floatBits mn mx, chooseIntDtype_mem _ _ _, Option.some.inj hd, ?_⟩
+    rw [hv, if_pos hcn]
+    apply List.map_congr_left
+    intro v _
+    unfold castTo
+    simp only []
+    split <;> rfl
+  next => cases hd
+
+
+example : (validate demoPlaceholder demoInput).toOption.map (fun p => p.dtype) = some (some "uint16") := by
+  decide +kernel
+
+/-- "held in an integer type wide enough for all values" (exact comparison of
+the bounds with the type limits: the stored type is an integer type, or the
+source compares Python ints): if the minimum and maximum
+that were read bound all values and fit uint64 or int64, every entry of the new
+X is the rounded original value - none falls outside the imposed type. -/
+theorem wide_enough {placeholder : Nat → Name} {inp : Input} {plan : Plan} {d : String} {mn mx : Rat}
+    (h : validate placeholder inp = .ok plan) (hd : plan.dtype = some d)
+    (hf : inp.floatBits = none ∨ sourceMode = .exact)
+    (hmm : inp.storage.minmax = .ok (some (mn, mx)))
+    (hb : ∀ v ∈ inp.storage.values, mn ≤ v ∧ v ≤ mx)
+    (hr : (0 ≤ roundHalfEven mn ∧ roundHalfEven mx ≤ 18446744073709551615) ∨
+      (-9223372036854775808 ≤ roundHalfEven mn ∧ roundHalfEven mx ≤ 9223372036854775807)) :
+    plan.values = inp.storage.values.map (fun v => some (roundHalfEven v : Rat)) := by
+  obtain ⟨_, _, _, mv, k, mn', mx', _, hmu, _, _, _, hv, hdt, _⟩ := validate_ok_inv h
+  rw [hdt] at hd
+  split at hd
+  next hcn =>
+    have : minmaxUsed inp = inp.storage.minmax := by
+      unfold minmaxUsed; simp [hcn]
+    rw [this, hmm] at hmu
+    cases hmu
+    rw [hv, if_pos hcn, chooseIntDtype_exact hf]
+    obtain ⟨r, hfind⟩ := ladder_exists _ _ hr
+    rw [chooseIntDtype_of_find hfind]
+    apply List.map_congr_left
+    intro v hvm
+    rw [find_fits hfind (hb v hvm).1 (hb v hvm).2]
+    rfl
+  next => cases hd
+
+
+example : demoInput.floatBits = none ∧ demoInput.storage.minmax = .ok (some (-1/2, 255 + 1/2)) ∧
+    (∀ v ∈ demoInput.storage.values, -1/2 ≤ v ∧ v ≤ 255 + 1/2) ∧
+    (0 ≤ roundHalfEven (-1/2) ∧ roundHalfEven (255 + 1/2) ≤ 18446744073709551615) := by
+  decide +kernel
+
+/-- "A file needing no change yields no new file": the layer is X itself, all
+gene names are Ensembl identifiers without version suffix, and no cast to
+integers is needed. -/
+theorem no_change_no_file {placeholder : Nat → Name} {inp : Input} {plan : Plan}
+    (h : validate placeholder inp = .ok plan) (hx : inp.layerIsX = true)
+    (hg : ∀ g ∈ inp.genes, isEnsembl g = true ∧ '.' ∉ g)
+    (hc : inp.roundToInt = false ∨ inp.intDtype = true ∨
+      isIntegersChunked inp.eps inp.storage.readChunks = true) :
+    plan.writeNew = false := by
+  obtain ⟨_, _, _, mv, k, mn, mx, hm, _, _, hw, _⟩ := validate_ok_inv h
+  have hcn : castNeeded inp = false := by
+    unfold castNeeded
+    rcases hc with hc | hc | hc <;> simp [hc]
+  obtain ⟨o, ho, hcase⟩ := mapGeneIdsInVar_ok hm
+  have he : o.mapped = inp.genes := by
+    rw [(mapGenes_ok ho).1, renameFrom_all_ensembl _ _ _ (fun g hg' => (hg g hg').1),
+      map_stripSuffix_eq_self (fun g hg' => (hg g hg').2)]
+  rcases hcase with ⟨_, rfl, _⟩ | ⟨hne, _, _⟩
+  · rw [hw, hx, hcn]; rfl
+  · exact absurd he hne
+
+
+example : (validate demoPlaceholder { demoInput with
+      roundToInt := false, genes := [['E','N','S','G','0','1'], ['E','N','S','G','0','2']] }).toOption.map
+    (fun p => p.writeNew) = some false := by
+  decide +kernel
+
+/-- A new file is written exactly when the layer is not X, or some gene name
+changes, or the values have to be cast to integers (rounding requested, stored
+type not an integer type, and some value not an integer). -/
+theorem file_written_when {placeholder : Nat → Name} {inp : Input} {plan : Plan}
+    (h : validate placeholder inp = .ok plan) :
+    plan.writeNew = true ↔
+      (inp.layerIsX = false ∨ plan.genes ≠ inp.genes ∨
+        (inp.roundToInt = true ∧ inp.intDtype = false ∧
+          isIntegersChunked inp.eps inp.storage.readChunks = false)) := by
+  obtain ⟨_, _, _, mv, k, mn, mx, hm, _, _, hw, hgen, _⟩ := validate_ok_inv h
+  obtain ⟨o, ho, hcase⟩ := mapGeneIdsInVar_ok hm
+  have hcn : castNeeded inp = true ↔ (inp.roundToInt = true ∧ inp.intDtype = false ∧
+          isIntegersChunked inp.eps inp.storage.readChunks = false) := by
+    unfold castNeeded; simp
+  rw [hw, ← hcn, hgen]
+  rcases hcase with ⟨_, rfl, _⟩ | ⟨hne, rfl, _⟩
+  · simp
+  · simp [hne]
+
+
+example : (validate demoPlaceholder { demoInput with
+      roundToInt := false, layerIsX := false,
+      genes := [['E','N','S','G','0','1'], ['E','N','S','G','0','2']] }).toOption.map
+    (fun p => p.writeNew) = some true := by
+  decide +kernel
+
+/-! ### rejections -/
+
+/-- the census `hasDup` finds a repeated name iff there is one -/
+theorem hasDup_iff (l : List Name) : hasDup l = true ↔ ¬ l.Nodup :=
+  CTM.Validate.hasDup_iff l
+
+
+example : hasDup [['a'], ['b'], ['a']] = true ∧ hasDup [['a'], ['b'], ['a','b']] = false := by decide
+
+/-- "duplicate cell identifiers ... are rejected" -/
+theorem rejects_dup_cells {placeholder : Nat → Name} {inp : Input} (h : ¬ inp.cellIds.Nodup) :
+    validate placeholder inp = .error .dupCellIds :=
+  validate_dupCells ((CTM.Validate.hasDup_iff _).2 h)
+
+
+example : validate demoPlaceholder { demoInput with cellIds := [['c'], ['d'], ['c']] } = .error .dupCellIds := by
+  decide +kernel
+
+/-- "duplicate or empty gene names ... are rejected" -/
+theorem rejects_bad_gene_names {placeholder : Nat → Name} {inp : Input} (h0 : inp.cellIds.Nodup)
+    (h : ¬ inp.genes.Nodup ∨ [] ∈ inp.genes) :
+    validate placeholder inp = .error .badGeneNames :=
+  validate_badGenes ((hasDup_false_iff _).2 h0) (h.imp_left (CTM.Validate.hasDup_iff _).2)
+
+
+example : validate demoPlaceholder { demoInput with genes := [['g'], []] } = .error .badGeneNames ∧
+    validate demoPlaceholder { demoInput with genes := [['g'], ['h'], ['g']] } = .error .badGeneNames := by
+  decide +kernel
+
+/-- "two genes mapping to one identifier are rejected": cell and gene names
+pass the census, the mapper changes `var` and its output has a repeated name;
+the run then fails (provided it gets that far: min / max could be read when
+they are needed). -/
+theorem rejects_two_to_one {placeholder : Nat → Name} {inp : Input} {o : MapOut} {mn mx : Rat}
+    (h0 : inp.cellIds.Nodup) (h1 : inp.genes.Nodup) (h2 : [] ∉ inp.genes)
+    (hm : mapGenes inp.lookup placeholder inp.start inp.genes = .ok o)
+    (hd : ¬ o.mapped.Nodup)
+    (hmm : (inp.expectedMax.isSome = true ∨ (inp.roundToInt = true ∧ inp.intDtype = false ∧
+          isIntegersChunked inp.eps inp.storage.readChunks = false)) →
+        inp.storage.minmax = .ok (some (mn, mx))) :
+    validate placeholder inp = .error .dupMapped := by
+  have hne : o.mapped ≠ inp.genes := fun e => hd (e ▸ h1)
+  have hmv : mapGeneIdsInVar inp.lookup placeholder inp.start inp.genes =
+      .ok (some o.mapped, o.nUnmapped) := by
+    unfold mapGeneIdsInVar
+    rw [hm]
+    simp only [hne, if_false]
+  by_cases hneed : (inp.expectedMax.isSome || castNeeded inp) = true
+  · have : minmaxUsed inp = .ok (some (mn, mx)) := by
+      unfold minmaxUsed
+      rw [if_pos hneed]
+      apply hmm
+      simpa [castNeeded] using hneed
+    exact validate_dupMapped ((hasDup_false_iff _).2 h0) ((hasDup_false_iff _).2 h1) h2 hmv
+      ((CTM.Validate.hasDup_iff _).2 hd) this
+  · have : minmaxUsed inp = .ok (some (0, 0)) := by
+      unfold minmaxUsed
+      rw [if_neg hneed]
+    exact validate_dupMapped ((hasDup_false_iff _).2 h0) ((hasDup_false_iff _).2 h1) h2 hmv
+      ((CTM.Validate.hasDup_iff _).2 hd) this
+
+
+/-- a symbol and the identifier it stands for in one file -/
+example : validate demoPlaceholder { demoInput with genes := [['E','N','S','G','0','7'], ['A','b','c']] } =
+    .error .dupMapped := by
+  decide +kernel
 
 end CTM.C16
